@@ -98,6 +98,31 @@ Definition src_list (l : list Z) : nat -> option Z := fun i => nth_error l i.
 (* ... or a re-iterable endless source *)
 Definition src_fun (g : nat -> Z) : nat -> option Z := fun i => Some (g i).
 
+(* settings.networking.error_backoffs as configured: `float | Iterable[float]`;
+   `backoffs if isinstance(backoffs, Iterable) else [backoffs]` *)
+Inductive backoffs :=
+| BScalar (b : Z)              (* a bare number: one retry *)
+| BList (l : list Z)           (* tuple / list, () included *)
+| BEndless (g : nat -> Z).     (* a re-iterable endless source *)
+
+Definition src_of (c : backoffs) : nat -> option Z :=
+  match c with
+  | BScalar b => src_list [b]
+  | BList l => src_list l
+  | BEndless g => src_fun g
+  end.
+
+(* the property's own list of transient failures: network errors, 5xx, 403, 429 *)
+Definition transient (f : fault) : bool :=
+  match f with
+  | FConn | FTimeout => true
+  | FStatus c _ _ => ((500 <=? c) && (c <? 600)) || (c =? 403) || (c =? 429)
+  | _ => false
+  end.
+
+Definition is_reauth (f : fault) : bool :=
+  match classify f with KReauth => true | _ => false end.
+
 (* attempt timestamps: asyncio.sleep(d) with d <= 0 does not advance the clock *)
 Fixpoint times (t : Z) (ws : list Z) : list Z :=
   match ws with
@@ -156,6 +181,10 @@ Fixpoint zlist_eqb (a b : list Z) : bool :=
 (* what the harness observes of one `request(context=ctx)` call started at t = 0 *)
 Definition request_obs (enforce : bool) (src : nat -> option Z) (fs : list fault) : list Z * outcome :=
   let r := request enforce src O fs in (times 0 (waits_of r), outcome_of r).
+
+(* the same, from the configuration value as the operator writes it *)
+Definition request_cfg_obs (enforce : bool) (c : backoffs) (fs : list fault) : list Z * outcome :=
+  request_obs enforce (src_of c) fs.
 
 Definition request_obs_eqb (x y : list Z * outcome) : bool :=
   zlist_eqb (fst x) (fst y) && outcome_eqb (snd x) (snd y).
